@@ -112,41 +112,173 @@ theorem findPosM_ok {ε α : Type} {p : α → Except ε Bool} {q : α → Bool}
         have := ih hm (fun t ht => hq t (by simp [ht]))
         simp [← ‹false = q a›, this]
 
+/-! ### facts about the regenerated character tables
+
+Each fact is a decidable check over `Gen.alphaRanges` / `Gen.upperRanges` / `Gen.lowerRanges`
+evaluated by the kernel, so a different interpreter table re-checks them. -/
+
+/-- ranges are well-formed, strictly increasing and non-adjacent-overlapping -/
+def sortedR : List (Nat × Nat) → Bool
+  | [] => true
+  | [(a, b)] => a ≤ b
+  | (a, b) :: (c, d) :: r => a ≤ b && b < c && sortedR ((c, d) :: r)
+
+/-- linear merge: the two sorted range lists have no common point -/
+def disjR : List (Nat × Nat) → List (Nat × Nat) → Bool
+  | [], _ => true
+  | _ :: _, [] => true
+  | (a, b) :: us, (c, d) :: ls =>
+    if b < c then disjR us ((c, d) :: ls)
+    else if d < a then disjR ((a, b) :: us) ls
+    else false
+termination_by us ls => us.length + ls.length
+
+theorem sortedR_tail {x : Nat × Nat} {r : List (Nat × Nat)} (h : sortedR (x :: r) = true) :
+    sortedR r = true := by
+  obtain ⟨a, b⟩ := x
+  cases r with
+  | nil => rfl
+  | cons y r =>
+    obtain ⟨c, d⟩ := y
+    simp only [sortedR, Bool.and_eq_true] at h
+    exact h.2
+
+theorem sortedR_lb {n c d : Nat} {r : List (Nat × Nat)} (hs : sortedR ((c, d) :: r) = true)
+    (h : inRanges n ((c, d) :: r) = true) : c ≤ n := by
+  induction r generalizing c d with
+  | nil => simp [inRanges] at h; exact h.1
+  | cons y r ih =>
+    obtain ⟨e, f⟩ := y
+    simp only [sortedR, Bool.and_eq_true, decide_eq_true_eq] at hs
+    rw [inRanges, Bool.or_eq_true] at h
+    rcases h with h | h
+    · simp at h; exact h.1
+    · have := ih hs.2 h
+      omega
+
+theorem disjR_sound {n : Nat} {us ls : List (Nat × Nat)} (hd : disjR us ls = true)
+    (hu : sortedR us = true) (hl : sortedR ls = true) (h1 : inRanges n us = true) :
+    inRanges n ls = false := by
+  fun_induction disjR us ls with
+  | case1 ls => simp [inRanges] at h1
+  | case2 => rfl
+  | case3 a b us c d ls hbc ih =>
+    cases hn : inRanges n ((c, d) :: ls) with
+    | false => rfl
+    | true =>
+      have hcn := sortedR_lb hl hn
+      rw [inRanges, Bool.or_eq_true] at h1
+      rcases h1 with h1 | h1
+      · simp at h1; omega
+      · rw [ih hd (sortedR_tail hu) hl h1] at hn; cases hn
+  | case4 a b us c d ls hbc hda ih =>
+    have han := sortedR_lb hu h1
+    rw [inRanges, Bool.or_eq_false_iff]
+    refine ⟨?_, ih hd hu (sortedR_tail hl) h1⟩
+    simp; omega
+  | case5 => cases hd
+
+theorem tables_sorted : sortedR Gen.alphaRanges = true ∧ sortedR Gen.upperRanges = true ∧
+    sortedR Gen.lowerRanges = true := by decide +kernel
+
+theorem tables_upper_lower : disjR Gen.upperRanges Gen.lowerRanges = true := by decide +kernel
+
+/-- no character is both upper and lower case -/
+theorem upper_lower_disjoint {c : Char} (h : isUpperN c = true) : isLowerN c = false :=
+  disjR_sound tables_upper_lower tables_sorted.2.1 tables_sorted.2.2 h
+
+/-- code points of the characters with a structural meaning in a name: Python white space (the
+29 code points of `isWs`), `{ } \ , ~ -` and the digits -/
+def structuralCodes : List Nat := wsCodes ++ [123, 125, 92, 44, 126, 45, 48, 49, 50, 51, 52, 53, 54, 55, 56, 57]
+
+theorem tables_structural : ∀ n ∈ structuralCodes,
+    inRanges n Gen.alphaRanges = false ∧ inRanges n Gen.upperRanges = false ∧
+    inRanges n Gen.lowerRanges = false := by decide +kernel
+
+/-- braces, backslash, comma, tie, hyphen, digits and white space are neither letters nor cased -/
+theorem structural_no_class {c : Char} (h : c.toNat ∈ structuralCodes) :
+    isAlphaN c = false ∧ isUpperN c = false ∧ isLowerN c = false :=
+  tables_structural _ h
+
+theorem brace_no_class : (isAlphaN '{' = false ∧ isUpperN '{' = false ∧ isLowerN '{' = false) ∧
+    (isAlphaN '}' = false ∧ isUpperN '}' = false ∧ isLowerN '}' = false) ∧
+    (isAlphaN '\\' = false ∧ isUpperN '\\' = false ∧ isLowerN '\\' = false) :=
+  ⟨structural_no_class (by decide), structural_no_class (by decide), structural_no_class (by decide)⟩
+
+theorem ws_no_class {c : Char} (h : isWs c = true) :
+    isAlphaN c = false ∧ isUpperN c = false ∧ isLowerN c = false := by
+  apply structural_no_class
+  have : c.toNat ∈ wsCodes := by simpa [isWs] using h
+  exact List.mem_append_left _ this
+
+theorem tables_ascii : ∀ n < 128,
+    inRanges n Gen.alphaRanges = ((65 ≤ n && n ≤ 90) || (97 ≤ n && n ≤ 122)) ∧
+    inRanges n Gen.upperRanges = (65 ≤ n && n ≤ 90) ∧
+    inRanges n Gen.lowerRanges = (97 ≤ n && n ≤ 122) := by decide +kernel
+
+/-- below U+0080 the classes are the ASCII ones of `Model/Basic.lean` -/
+theorem ascii_classes {c : Char} (h : c.toNat < 128) :
+    isAlphaN c = isAlpha c ∧ isUpperN c = isUpperA c ∧ isLowerN c = isLowerA c :=
+  tables_ascii _ h
+
 /-! ### `is_von_name` against the case of a token -/
 
 theorem specialCharIsLowerAux_false (r : Str) :
     specialCharIsLowerAux false r =
-      match r.find? isAlpha with
-      | some c => isLowerA c
+      match r.find? isAlphaN with
+      | some c => isLowerN c
       | none => false := by
   induction r with
   | nil => simp [specialCharIsLowerAux]
   | cons c r ih =>
     simp only [specialCharIsLowerAux, List.find?_cons]
-    cases h : isAlpha c <;> simp [ih]
+    cases h : isAlphaN c <;> simp [ih]
 
 theorem specialCharIsLowerAux_true (r : Str) :
-    specialCharIsLowerAux true r = specialCharIsLowerAux false ((r.dropWhile isAlpha).drop 1) := by
+    specialCharIsLowerAux true r = specialCharIsLowerAux false ((r.dropWhile isAlphaN).drop 1) := by
   induction r with
   | nil => simp [specialCharIsLowerAux]
   | cons c r ih =>
     simp only [specialCharIsLowerAux, List.dropWhile_cons]
-    cases h : isAlpha c <;> simp [ih]
+    cases h : isAlphaN c <;> simp [ih]
+
+/-- a character is lower-case for the rule exactly when `islower` says so -/
+theorem charCase_lower (c : Char) : decide (charCase c = .lower) = isLowerN c := by
+  unfold charCase
+  cases hu : isUpperN c with
+  | true => simp [upper_lower_disjoint hu]
+  | false => cases hl : isLowerN c <;> simp
+
+theorem charCase_upper (c : Char) : decide (charCase c = .upper) = isUpperN c := by
+  unfold charCase
+  cases hu : isUpperN c with
+  | true => simp
+  | false => cases hl : isLowerN c <;> simp
 
 theorem specialCharIsLower_eq (sc : Str) :
     specialCharIsLower sc = decide (specialCase sc = .lower) := by
   have key : ∀ o : Option Char,
-      (match o with | some c => isLowerA c | none => false) =
+      (match o with | some c => isLowerN c | none => false) =
       decide ((match o with
-        | some c => if isLowerA c = true then TokCase.lower else TokCase.upper
+        | some c => charCase c
         | none => TokCase.caseless) = TokCase.lower) := by
     intro o
     cases o with
     | none => simp
-    | some c => cases isLowerA c <;> simp
+    | some c => simp only [charCase_lower]
   unfold specialCharIsLower
   rw [specialCharIsLowerAux_true, specialCharIsLowerAux_false]
   exact key _
+
+theorem all_lower_not_all_upper {t : Str} (hne : t ≠ []) (h : t.all isLowerN = true) :
+    t.all isUpperN = false := by
+  cases t with
+  | nil => exact absurd rfl hne
+  | cons c r =>
+    simp only [List.all_cons, Bool.and_eq_true] at h
+    cases hu : isUpperN c with
+    | false => simp [hu]
+    | true => rw [upper_lower_disjoint hu] at h; cases h.1
 
 theorem vonScan_eq (toks : List Tok) : vonScan toks = decide (tokCaseOf toks = .lower) := by
   induction toks with
@@ -155,7 +287,10 @@ theorem vonScan_eq (toks : List Tok) : vonScan toks = decide (tokCaseOf toks = .
     obtain ⟨t, l⟩ := a
     simp only [vonScan, tokCaseOf]
     split
-    · cases t.all isLowerA <;> simp
+    · rename_i hc
+      cases hl : t.all isLowerN with
+      | false => cases t.all isUpperN <;> simp
+      | true => simp [all_lower_not_all_upper hc.2.1 hl]
     · split
       · exact specialCharIsLower_eq t
       · exact ih
@@ -164,38 +299,73 @@ theorem scan_cons_plain (c : Char) (r : Str) (h1 : c ≠ '{') (h2 : c ≠ '}') :
     scan (c :: r) = (scan r).map (([c], 0) :: ·) := by
   simp [scan, scanM, h1, h2]
 
-theorem isAlpha_eq (c : Char) : isAlpha c = (isUpperA c || isLowerA c) := rfl
+/-- a character in one of the three classes is not a brace -/
+theorem classed_ne_brace {c : Char}
+    (h : isAlphaN c = true ∨ isUpperN c = true ∨ isLowerN c = true) : c ≠ '{' ∧ c ≠ '}' := by
+  have hb := brace_no_class
+  constructor <;> rintro rfl
+  · rcases h with h | h | h
+    · rw [hb.1.1] at h; cases h
+    · rw [hb.1.2.1] at h; cases h
+    · rw [hb.1.2.2] at h; cases h
+  · rcases h with h | h | h
+    · rw [hb.2.1.1] at h; cases h
+    · rw [hb.2.1.2.1] at h; cases h
+    · rw [hb.2.1.2.2] at h; cases h
 
-theorem isUpperA_ne_brace {c : Char} (h : isUpperA c = true) : c ≠ '{' ∧ c ≠ '}' := by
-  constructor <;> (rintro rfl; revert h; decide)
+/-- a first character that is a letter or cased is the first brace-level-0 token of the scan -/
+theorem scan_cons_classed {c : Char} (r : Str)
+    (h : isAlphaN c = true ∨ isUpperN c = true ∨ isLowerN c = true) :
+    scan (c :: r) = (scan r).map (([c], 0) :: ·) :=
+  scan_cons_plain c r (classed_ne_brace h).1 (classed_ne_brace h).2
 
-theorem isLowerA_ne_brace {c : Char} (h : isLowerA c = true) : c ≠ '{' ∧ c ≠ '}' := by
-  constructor <;> (rintro rfl; revert h; decide)
-
-theorem isLowerA_not_upper {c : Char} (h : isLowerA c = true) : isUpperA c = false := by
-  simp only [isLowerA, isUpperA, Bool.and_eq_true, decide_eq_true_eq] at *
-  simp only [Bool.and_eq_false_iff, decide_eq_false_iff_not]; omega
-
-theorem isLow_upper_first {c : Char} {r : Str} (h : isUpperA c = true) : isLow (c :: r) = false := by
-  have ⟨h1, h2⟩ := isUpperA_ne_brace h
-  have hl : isLowerA c = false := by
-    cases hc : isLowerA c
-    · rfl
-    · rw [isLowerA_not_upper hc] at h; cases h
+theorem isLow_upper_first {c : Char} {r : Str} (h : isUpperN c = true) : isLow (c :: r) = false := by
   unfold isLow tokenCase
-  rw [scan_cons_plain c r h1 h2]
-  cases scan r with
+  cases scan (c :: r) with
   | none => simp
-  | some toks => simp [tokCaseOf, isAlpha_eq, h, hl]
+  | some toks => simp [charCase, h]
 
-theorem isLow_lower_first {c : Char} {r : Str} (h : isLowerA c = true)
+theorem isLow_lower_first {c : Char} {r : Str} (hu : isUpperN c = false) (h : isLowerN c = true)
     (hs : (scan (c :: r)).isSome) : isLow (c :: r) = true := by
-  have ⟨h1, h2⟩ := isLowerA_ne_brace h
   unfold isLow tokenCase
-  rw [scan_cons_plain c r h1 h2] at hs ⊢
-  cases hr : scan r with
+  cases hr : scan (c :: r) with
   | none => simp [hr] at hs
-  | some toks => simp [tokCaseOf, isAlpha_eq, h]
+  | some toks => simp [charCase, hu, h]
+
+theorem tokenCase_uncased_first {c : Char} {r : Str} (hu : isUpperN c = false)
+    (hl : isLowerN c = false) : tokenCase (c :: r) = (scan (c :: r)).map tokCaseOf := by
+  unfold tokenCase
+  cases scan (c :: r) with
+  | none => rfl
+  | some toks => simp [charCase, hu, hl]
+
+/-- The first-character clause adds nothing for letters: unless the token starts with a cased
+character that is not a letter, its case is the one the scan finds (first brace-level-0 letter
+or special character). -/
+theorem tokenCase_eq_scan (tok : Str)
+    (h : ∀ c r, tok = c :: r → (isUpperN c = true ∨ isLowerN c = true) → isAlphaN c = true) :
+    tokenCase tok = (scan tok).map tokCaseOf := by
+  cases tok with
+  | nil => simp [tokenCase]
+  | cons c r =>
+    cases hu : isUpperN c with
+    | true =>
+      have ha := h c r rfl (Or.inl hu)
+      unfold tokenCase
+      rw [scan_cons_classed r (Or.inl ha)]
+      cases scan r with
+      | none => rfl
+      | some toks => simp [charCase, hu, tokCaseOf, ha]
+    | false =>
+      cases hl : isLowerN c with
+      | false => exact tokenCase_uncased_first hu hl
+      | true =>
+        have ha := h c r rfl (Or.inr hl)
+        unfold tokenCase
+        rw [scan_cons_classed r (Or.inl ha)]
+        cases scan r with
+        | none => rfl
+        | some toks => simp [charCase, hu, hl, tokCaseOf, ha]
 
 /-- the tokens whose case the rule can decide without scanning past the nesting limit -/
 theorem isVonName_ok {t : Str} {b : Bool} (h : isVonName t = .ok b) (hk : caseKnown t = true) :
@@ -207,14 +377,17 @@ theorem isVonName_ok {t : Str} {b : Bool} (h : isVonName t = .ok b) (hk : caseKn
     split at h
     · rename_i hu; cases h; exact (isLow_upper_first hu).symm
     · rename_i hu
+      have hu' : isUpperN c = false := by simpa using hu
       have hs : (scan (c :: r)).isSome := by simpa [caseKnown, hu] using hk
       split at h
-      · rename_i hl; cases h; exact (isLow_lower_first hl hs).symm
-      · split at h
+      · rename_i hl; cases h; exact (isLow_lower_first hu' hl hs).symm
+      · rename_i hl
+        have hl' : isLowerN c = false := by simpa using hl
+        split at h
         · cases h
         · rename_i toks htoks
           cases h
-          simp [isLow, tokenCase, htoks, vonScan_eq]
+          simp [isLow, tokenCase_uncased_first hu' hl', htoks, vonScan_eq]
 
 theorem isVonName_error {t : Str} {e : NameErr} (h : isVonName t = .error e) :
     (t = [] ∧ e = .indexError) ∨
